@@ -16,6 +16,7 @@ import numpy as np
 
 from sim import core
 from sim.fsseam import FsSeam
+from sim.preds import gen_interval, interval_func
 from sim.ramses import World
 from sim.wcheck import Disk, compare_full, components, gen_world_params, merge_names
 from checks.c01 import world_reductions
@@ -59,6 +60,20 @@ def generate(rng, tier):
     if p["levelmax"] > 5:
         p["levelmax"] = 5
         p["levelmin"] = min(p["levelmin"], 5)
+    before_box = None
+    if rng.random() < 0.1 and p["part"] is not None and not p.get("siblings"):
+        # a deeper Hilbert world on several ranks, particles on every rank; the dataset object has already made a load
+        # restricted to a small box (which pre-selects CPU files)
+        p.update(ndim=3, ordering="hilbert", levelmin=3, levelmax=rng.choice([3, 3, 4]), maxcells=rng.choice([700, 900]), ncpu=rng.choice([3, 4, 6, 8]),
+                 bound_keys=None, nboundary=0)
+        p["bound_frac"] = sorted(rng.random() for _ in range(p["ncpu"] - 1))
+        p["part"]["counts"] = [rng.choice([1, 2, 3, 5]) for _ in range(p["ncpu"])]
+        p["part"]["columns"] = [c for c in p["part"]["columns"] if not c[0].startswith(("position_", "velocity_"))]
+        p["part"]["columns"] = [["position_" + c, "d"] for c in "xyz"] + p["part"]["columns"]
+        kind = rng.choice(["tiny", "leaf"])
+        before_box = [gen_interval(rng, c, p["levelmax"], kind=kind) for c in "xyz"]
+    elif rng.random() < 0.1:
+        before_box = [gen_interval(rng, c, p["levelmax"]) for c in "xyz"[: p["ndim"]] if rng.random() < 0.7] or None
     mesh_raw = [n for names in all_raw(p).values() for n in names]
     kinds = ["mesh"] + (["part"] if p["part"] else []) + (["sink"] if p["sink"] else [])
     form = rng.choice(["list", "dict", "dict", "dict", "none"])
@@ -94,7 +109,7 @@ def generate(rng, tier):
         cand = (["grav"] if p["grav"] else []) + (["rt"] if p["rt_vars"] else []) + (["part"] if p["part"] else []) + (["sink"] if p["sink"] else [])
         if cand:
             absent = [rng.choice(cand)]
-    return {"world": p, "select": sel, "absent": absent, "warm": rng.random() < 0.25}
+    return {"world": p, "select": sel, "absent": absent, "warm": rng.random() < 0.25, "before_box": before_box}
 
 
 def describe(case):
@@ -181,9 +196,18 @@ def execute(case, stats):
                 disk.load(select=select)
             except Exception:
                 pass  # the judged load below reports
+        ds0 = None
+        if case.get("before_box"):
+            stats.inc("probe.dataset_already_made_a_box_restricted_load")
+            try:
+                ds0, _ = disk.load(select={"mesh": {s_["var"]: interval_func(s_, w) for s_ in case["before_box"]}})
+                for g_ in list(ds0.keys()):
+                    del ds0[g_]  # the user drops the groups of that load; what the next load returns is judged as usual
+            except Exception:
+                ds0 = None
         try:
             seam_s = FsSeam()
-            sub, _ = disk.load(seam=seam_s, **({"select": select} if select is not None else {}))
+            sub, _ = disk.load(ds=ds0, seam=seam_s, **({"select": select} if select is not None else {}))
         except Exception as e:
             import traceback
 
@@ -296,7 +320,7 @@ def measure(case):
     ssize = 0 if s["form"] == "none" else len(core.dumps(s))
     npart = sum(p["part"]["counts"]) if p["part"] else 0
     return (p["ncpu"], p["levelmax"], p["ndim"], len(p["hydro_vars"]), int(bool(p["grav"])) + int(bool(p["rt_vars"])) + int(p["part"] is not None) + int(p["sink"] is not None),
-            ssize, len(case["absent"]), p["nboundary"], p["maxcells"], npart, int(p["units"] != [1.0, 1.0, 1.0]), int(p["ghost_p"] * 10), int(bool(case.get("warm"))))
+            ssize, len(case["absent"]), p["nboundary"], p["maxcells"], npart, int(p["units"] != [1.0, 1.0, 1.0]), int(p["ghost_p"] * 10), int(bool(case.get("warm"))) + int(bool(case.get("before_box"))))
 
 
 def reductions(case, viol):
@@ -304,6 +328,8 @@ def reductions(case, viol):
     s = case["select"]
     if case.get("warm"):
         yield dict(case, warm=False)
+    if case.get("before_box"):
+        yield dict(case, before_box=None)
     used = set()
     if s["form"] == "dict":
         for v in s["groups"].values():
